@@ -300,6 +300,31 @@ def build_model(case):
     return model
 
 
+PARAM_FORMS = ("dict", "list", "array", "tuples", "two_dicts")
+
+
+def assign_params(model, params, form):
+    """plain numbers for ALL parameters handed to `model.parameters` in one of the accepted forms (dict / list or array in
+    param_list order / list of (name, value) pairs / two partial dicts one after the other); returns the form used"""
+    names = [str(p) for p in model.param_list]
+    if form in ("list", "array", "tuples") and not (all(nm in params for nm in names) and len(names) == len(params)):
+        form = "dict"
+    if form == "list":
+        model.parameters = [float(params[nm]) for nm in names]
+    elif form == "array":
+        model.parameters = np.array([float(params[nm]) for nm in names])
+    elif form == "tuples":
+        model.parameters = [(nm, float(params[nm])) for nm in names]
+    elif form == "two_dicts" and len(params) > 1:
+        ks = list(params)
+        model.parameters = {k: float(params[k]) for k in ks[:len(ks) // 2]}
+        model.parameters = {k: float(params[k]) for k in ks[len(ks) // 2:]}
+    else:
+        form = "dict"
+        model.parameters = {k: float(v) for k, v in params.items()}
+    return form
+
+
 # ----------------------------------------------------------------------------- tracing the real run
 EVALUATORS = ["eventRateVector", "vMat", "transitionMean", "transitionVar", "pureOdeVector"]
 
@@ -892,6 +917,7 @@ def run_session(case, judge, prop, tags, mism, viol, max_steps=MAX_STEPS):
                 _configure(fm, cur)
                 ftr = traced_run(fm, time_obj(c.ts), c.exact, op["np_seed"], iterations=c.sim["iterations"], max_steps=max_steps)
                 tags.append("probe:fresh_reference")
+                c.fresh_result = ftr.result        # kept for callers whose property states it (C16); nothing here reads it
                 if ftr.result is not None:
                     same, why = _same_result(ftr.result, c.tr.result)
                     if not same:
